@@ -26,7 +26,7 @@ import (
 
 type op struct {
 	T     int    `json:"t"`
-	K     string `json:"k"` // send|close|sleep|push|drain|stop (gateway); submit|sleep|stop (append, delivery)
+	K     string `json:"k"` // send|close|sleep|push|drain|stop (gateway); submit|psubmit|sleep|stop (append, delivery)
 	S     int    `json:"s,omitempty"`
 	N     int    `json:"n,omitempty"`
 	Bytes []int  `json:"bytes,omitempty"`
@@ -236,6 +236,12 @@ func genPipeline(r *rand.Rand, tier, comp string) input {
 			o.Lat = []int{vh.Pick(r, 0, 50, 200, 800, 3000), vh.Pick(r, 0, 0, 100, 1000)} // append / post-commit latency
 			if r.IntN(15) == 0 {
 				o.Fail = []int{1}
+			}
+			if comp == "append" && j > n/3 && r.IntN(4) == 0 {
+				// held inside SubmitLocal at the caller-context check until a stop call
+				// has returned (or the budget is used up)
+				o.K = "psubmit"
+				o.Us = vh.Pick(r, 500, 3000, 10000)
 			}
 			in.Ops = append(in.Ops, o)
 			continue
